@@ -201,14 +201,16 @@ theorem nthRootNewton_spec (x k : Nat) (hk : 0 < k) (hbits : k + 1 < bitLen x) :
     have := two_pow_bitLen_le hx
     have : 2 ^ 1 ≤ 2 ^ (bitLen x - 1) := Nat.pow_le_pow_right (by decide) (by omega)
     omega
-  -- the start value 2^(bits/n) is positive and at most x
-  have hg0 : 0 < 2 ^ (bitLen x / (k + 1)) := Nat.two_pow_pos _
-  have hg0x : 2 ^ (bitLen x / (k + 1)) ≤ x := by
+  -- the start value 2^⌈bits/n⌉ is positive and at most x
+  have hg0 : 0 < 2 ^ ((bitLen x + (k + 1) - 1) / (k + 1)) := Nat.two_pow_pos _
+  have hg0x : 2 ^ ((bitLen x + (k + 1) - 1) / (k + 1)) ≤ x := by
     have h1 := two_pow_bitLen_le hx
-    have h2 : bitLen x / (k + 1) ≤ bitLen x - 1 := by
-      have : bitLen x / (k + 1) ≤ bitLen x / 2 := Nat.div_le_div_left (by omega) (by decide)
-      have : bitLen x / 2 ≤ bitLen x - 1 := by omega
-      omega
+    have h2 : (bitLen x + (k + 1) - 1) / (k + 1) ≤ bitLen x - 1 := by
+      apply Nat.le_of_lt_succ
+      rw [Nat.div_lt_iff_lt_mul (by omega)]
+      have : bitLen x * 2 ≤ bitLen x * (k + 1) := Nat.mul_le_mul_left _ (by omega)
+      have : (bitLen x - 1).succ = bitLen x := by omega
+      rw [this]; omega
     exact Nat.le_trans (Nat.pow_le_pow_right (by decide) h2) h1
   have hrx : r ≤ x := by
     have := hroot.1
@@ -217,8 +219,8 @@ theorem nthRootNewton_spec (x k : Nat) (hk : 0 < k) (hbits : k + 1 < bitLen x) :
   have hup := newtonUp_spec hroot (x + 2) _ hg0 hg0x (by left; omega)
   unfold nthRootNewton
   simp only []
-  generalize newtonUp x (k + 1) (x + 2) (2 ^ (bitLen x / (k + 1)))
-    (newtonNext x (k + 1) (2 ^ (bitLen x / (k + 1)))) = res at hup
+  generalize newtonUp x (k + 1) (x + 2) (2 ^ ((bitLen x + (k + 1) - 1) / (k + 1)))
+    (newtonNext x (k + 1) (2 ^ ((bitLen x + (k + 1) - 1) / (k + 1)))) = res at hup
   obtain ⟨G, F⟩ := res
   obtain ⟨h1, h2, h3, h4, h5⟩ := hup
   simp only [] at h1 h2 h3 h4 h5 ⊢
